@@ -508,6 +508,66 @@ def check(run):
                         (tgt.value.id in (c.name, 'cls') or (tgt.value.id == 'self' and f.cls is not None and prog.is_subclass(f.cls, c.name) and
                                                              not assigns_self_attr(prog, f.cls, tgt.attr))):
                     run.fail('D3', f'{f.qual}:{c.name}.{tgt.attr}', f'mutates the class-level container {c.name}.{tgt.attr}', prog.where(n, f.module))
+    # a function that REBINDS a class attribute (cls.X = / cls.X += / ClassName.X -= / type(self).X = ...) writes process-wide state.
+    # accepted shapes: (a) a counter stepped and un-stepped around a block on every path - `X += k` directly followed by
+    # `try: ... finally: X -= k`; (b) a once-only table: assignment under a guard on the attribute itself whose value mentions no parameter
+    def class_attr_target(t, f):
+        if not isinstance(t, ast.Attribute):
+            return None
+        v = t.value
+        if isinstance(v, ast.Name) and (v.id in prog.classes or (v.id == 'cls' and f.cls is not None and f.node.args.args and f.node.args.args[0].arg == 'cls')):
+            return f'{v.id if v.id != "cls" else f.cls.name}.{t.attr}'
+        if isinstance(v, ast.Attribute) and v.attr == '__class__' and isinstance(v.value, ast.Name) and v.value.id == 'self':
+            return f'{f.cls.name if f.cls else "?"}.{t.attr}'
+        if isinstance(v, ast.Call) and isinstance(v.func, ast.Name) and v.func.id == 'type' and len(v.args) == 1 and isinstance(v.args[0], ast.Name) and v.args[0].id == 'self':
+            return f'{f.cls.name if f.cls else "?"}.{t.attr}'
+        return None
+
+    def blocks_of(node):
+        for x in ast.walk(node):
+            for fld in ('body', 'orelse', 'finalbody'):
+                b = getattr(x, fld, None)
+                if isinstance(b, list) and b and isinstance(b[0], ast.stmt):
+                    yield x, fld, b
+            for h in getattr(x, 'handlers', []):
+                yield h, 'body', h.body
+    nwrites = 0
+    for f in prog.all_functions():
+        params = {a.arg for a in f.node.args.args + f.node.args.kwonlyargs} - {'cls', 'self'}
+        restored = set()        # ids of AugAssign nodes that are the restoring half of an accepted pair
+        verdicts = {}
+        for owner, fld, block in blocks_of(f.node):
+            for i, st in enumerate(block):
+                if isinstance(st, ast.AugAssign) and class_attr_target(st.target, f):
+                    key = ast.unparse(st.target)
+                    nxt = block[i + 1] if i + 1 < len(block) else None
+                    inverse = {ast.Add: ast.Sub, ast.Sub: ast.Add}.get(type(st.op))
+                    pair = None
+                    if isinstance(nxt, ast.Try) and inverse is not None:
+                        for r in nxt.finalbody:
+                            if isinstance(r, ast.AugAssign) and ast.unparse(r.target) == key and isinstance(r.op, inverse) and ast.unparse(r.value) == ast.unparse(st.value):
+                                pair = r
+                    if pair is not None:
+                        restored.add(id(pair))
+                        verdicts[id(st)] = (True, st, 'stepped and restored in the `finally` of the block that follows')
+                    elif id(st) not in restored:
+                        verdicts.setdefault(id(st), (False, st, 'steps a class-level attribute; it is not restored on every path (no try/finally around what follows)'))
+                elif isinstance(st, ast.Assign):
+                    for t in st.targets:
+                        if class_attr_target(t, f):
+                            guard_ok = isinstance(owner, ast.If) and fld == 'body' and any(
+                                isinstance(x, ast.Attribute) and x.attr == t.attr for x in ast.walk(owner.test))
+                            names = {x.id for x in ast.walk(st.value) if isinstance(x, ast.Name)}
+                            if guard_ok and not (names & params):
+                                verdicts[id(st)] = (True, st, 'once-only table: guarded by a test of the attribute, value mentions no parameter')
+                            else:
+                                verdicts[id(st)] = (False, st, 'rebinds a class-level attribute' + (' with a value that depends on a parameter' if names & params else ' unconditionally'))
+        for ident, (ok_, st, why) in verdicts.items():
+            if id(st) in restored:
+                continue
+            nwrites += 1
+            tgt = class_attr_target(st.target if isinstance(st, ast.AugAssign) else [t for t in st.targets if class_attr_target(t, f)][0], f)
+            run.check(ok_, 'D3', f'{f.qual}:{tgt}', f'`{ast.unparse(st)[:60]}`: {why}' + ('' if ok_ else ' - state is carried between calls'), prog.where(st, f.module))
     # memoising decorators keep results between calls.  That is invisible only if the cache key determines everything the function reads:
     # a parameter whose class compares (__eq__/__hash__) fewer attributes than the function reads from it makes a later call return the
     # result of an earlier, different argument; a returned mutable object is shared between all callers.
